@@ -20,12 +20,18 @@ CLAIMED = {
 CLAIMED["C12"] = dict(
     level="other", design="3/C12",
     technique="static analysis: definite-assignment (typestate) of owned/optional pointer members over every "
-              "constructor CFG of every class, new[]/delete[] form agreement, dominating-null-test rule for optional driver components",
-    text="Decides the ownership discipline whose breach is the reported crash-at-exit, for every class of the library: "
+              "constructor CFG of every class, new[]/delete[] form agreement, path-sensitive nullness analysis (belief "
+              "contradiction) of the optional components of both task-based drivers with correlated-flag tracking, "
+              "counting argument on the CFG for the fixed task arrays, unconditional-reset rule for the pools",
+    text="Decides the ownership and null discipline whose breach is the reported crash, for every class of the library: "
          "each pointer member that a destructor deletes or that the class compares with nullptr is definitely assigned by "
-         "every user-provided non-delegating constructor (restart constructors included), and allocation/deallocation forms agree. "
-         "Does not decide run-time index bounds or exit status.",
-    note="Trusted: clang front end and AST export. A member handed out by address/reference is assumed initialised by the callee.")
+         "every user-provided non-delegating constructor (restart constructors included), allocation/deallocation forms agree; "
+         "every optional component of the two task-based drivers (a pointer the driver itself compares with nullptr) is "
+         "dereferenced only on paths on which it cannot be null; the 27-entry task arrays handed to every TaskContext::execute "
+         "receive at most 27 entries per task; pool resets clear every released element. One known finding (RHD driver with "
+         "`PhotonSourceDistribution: type: None`). Does not decide run-time sized index bounds or exit status as such.",
+    note="Trusted: clang front end and AST export. A member handed out by address/reference is assumed initialised by the callee; "
+         "factory functions are taken as non-null only when every reachable return statement returns `new`.")
 
 CLAIMED["C07"] = dict(
     level="proof", design="3/C07",
